@@ -37,7 +37,7 @@ RejL(c, v) == [verdict |-> "reject", cls |-> c, strict |-> FALSE, val |-> v]   \
 -----------------------------------------------------------------------------
 (* NDP options (RFC 4861 4.6): type, length in units of 8 octets, present bytes. *)
 NdpTypes == IF Alpha = "wide" THEN {1, 2, 3, 5, 24, 25, 31, 200} ELSE {1, 25, 31, 200}
-NdpLens  == IF Alpha = "wide" THEN {0, 1, 2, 3, 4, 5, 32, 33, 255} ELSE {0, 1, 3}   \* 32, 33: 8*l wraps in a uint8
+NdpLens  == IF Alpha = "wide" THEN {0, 1, 2, 3, 4, 5, 32, 33, 255} ELSE {0, 1, 3}   \* 32, 33: 8*l wrapped in a uint8 before /repo c20b9e1
 NdpElems == {e \in [t : NdpTypes, l : NdpLens, p : {"full", "hdr1", "body"}] :
                /\ e.p = "hdr1" => e.l = 0           \* only the type octet is present
                /\ e.p = "body" => e.l >= 1          \* header present, fewer than 8*l octets
